@@ -40,6 +40,12 @@ def check_options():
     if not os.path.isfile(options.args().infile):
         raise DDSMTException('input file is not a regular file')
 
+    # check output file
+    outdir = os.path.dirname(os.path.abspath(options.args().outfile))
+    if not os.path.isdir(outdir):
+        raise DDSMTException('directory of the output file does not exist')
+    if os.path.isdir(options.args().outfile):
+        raise DDSMTException('output file is a directory')
     if os.path.exists(options.args().outfile) and os.path.samefile(
             options.args().infile,
             options.args().outfile):
@@ -75,6 +81,16 @@ def check_options():
 
     if options.args().jobs < 1:
         raise DDSMTException('The number of jobs must be at least 1')
+
+    # limits are handed to the operating system as integers
+    for name in ['timeout', 'timeout_cc']:
+        val = getattr(options.args(), name)
+        if val is not None and not val < 2**31:
+            raise DDSMTException('--{} is not a number of seconds'.format(
+                name.replace('_', '-')))
+    if options.args().memout is not None \
+       and not options.args().memout < 2**31:
+        raise DDSMTException('--memout is too large')
 
 
 def setup_logging():
@@ -129,7 +145,11 @@ def ddsmt_main():
         start_time = time.time()
         # no newline translation: a CR inside a literal belongs to it
         with open(options.args().infile, 'r', newline='') as infile:
-            exprs = list(nodeio.parse_smtlib(infile.read()))
+            try:
+                text = infile.read()
+            except UnicodeDecodeError as e:
+                raise DDSMTException(f'input file can not be decoded: {e}')
+            exprs = list(nodeio.parse_smtlib(text))
             nexprs = nodes.count_exprs(exprs)
 
         logging.debug("parsed {} s-expressions in {:.2f} seconds".format(
